@@ -1,4 +1,5 @@
 """C16 — scalers and whiteners: metadata pass-through, empty-input rejection, zero-guarded data-derived divisors."""
+from . import layout
 from .core import RuleResult
 from .facts import fn_key, fn_loc, fn_file, walk, strip, peel_refs, pat_bindings, Render, children
 from .sym import Tracer, Term, Cmp, k, as_term, walk_terms
@@ -377,5 +378,28 @@ def rule_extrema(ctx):
     return res.finish(2)
 
 
+rule_memorder = layout.make_rule("R-C16-memorder", "raw memory-order buffers (as_slice_memory_order, into_raw_vec, as_ptr) of record matrices are used by position only behind an is_standard_layout() test", lambda f: f["d"]["krate"] == "linfa_preprocessing" and any(x in fn_file(f) for x in ("linear_scaling", "norm_scaling", "whitening")), "linfa-preprocessing scalers and whiteners")
+
+def rule_stale(ctx):
+    """no field of a fitted model is computed from a local that is stored in another field and mutated in between (rules/stale.py)"""
+    from . import stale
+    res = RuleResult("R-C16-stale", "fields of the fitted model that are computed from another stored field are computed from its final value (no mutation between the computation and the construction)")
+    F = ctx.facts()
+    fns = [f for f in F.all_fns() if f["d"]["krate"] == "linfa_preprocessing" and any(x in fn_file(f) for x in ("linear_scaling", "norm_scaling", "whitening"))]
+    lits = 0
+    for fn in fns:
+        lits += sum(1 for x in walk(fn["body"]) if x.get("k") == "Struct" and x.get("fields"))
+        for s_ in stale.findings(fn):
+            key = fn_key(fn)
+            res.instance("%s : field %s derived from %s" % (key, s_["field"], s_["source"]))
+            res.violate("%s : stale-field:%s" % (key, s_["field"]), "field `%s` is computed from `%s`, which is stored as field `%s` and is mutated (line %s) after that computation and before the model is built: the two fields describe different states" % (s_["field"], s_["source"], s_["source_field"], s_["mutation_ln"]), fn_loc(fn, s_["mutation_ln"]))
+    res.instance("%d functions of linfa-preprocessing scalers and whiteners scanned, %d struct literals" % (len(fns), lits))
+    if fns and lits:
+        res.ok()
+    else:
+        res.missing_anchor("model constructions in linfa-preprocessing scalers and whiteners")
+    return res.finish(1)
+
+
 def rules(tier):
-    return [rule_meta, rule_empty, rule_div, rule_affine, rule_extrema]
+    return [rule_meta, rule_empty, rule_div, rule_affine, rule_extrema, rule_memorder, rule_stale]
